@@ -69,10 +69,10 @@ Definition halgo_ok (h : halgo) : bool :=
   | None => false
   | Some A =>
       ((a_bsize A =? ha_bsize h)%nat && (a_lenfld A =? ha_lenfld h)%nat &&
-       (length (a_iv A) =? ha_nwords h)%nat && list_N_eqb (a_iv A) (ha_iv h) &&
+       (List.length (a_iv A) =? ha_nwords h)%nat && list_N_eqb (a_iv A) (ha_iv h) &&
        forallb (fun w => (w <? 2 ^ ha_wordbits h)%N) (ha_iv h) &&
        is_pow2 (ha_bsize h) && (ha_lenfld h <? ha_bsize h)%nat &&
-       (length (a_lenbytes A 0) =? ha_lenfld h)%nat &&
+       (List.length (a_lenbytes A 0) =? ha_lenfld h)%nat &&
        (* the widths the model hard-wires: w64 total, lengths below 2^32, 2-block pad buffer *)
        (ha_total_bits h =? 64)%N && (ha_inclen_bits h =? 32)%N && (ha_plen_bits h =? 32)%N &&
        (ha_pbuf_blocks h =? 2)%nat)%bool
@@ -87,7 +87,7 @@ Record hfam := {
   hf_sb_threshold : nat      (* *_SB_THRESHOLD_* of <algo>_job.asm used by this family's flush (0 = none) *)
 }.
 
-Definition hf_lanes (f : hfam) : nat := length (hf_free f).
+Definition hf_lanes (f : hfam) : nat := List.length (hf_free f).
 (* acceptor/model bound: "never holds more contexts than it has lanes" = fewer than lanes+1 *)
 Definition hf_K (f : hfam) : nat := S (hf_lanes f).
 
